@@ -245,6 +245,9 @@ def extract_printed(out, tag):
     return res
 
 
+# evidence and replay files go to /verif unless a run against a CHANGED tree (seeded changes, tools/verify_mutant.sh) redirects them
+OUT = os.environ.get("DFOLS_VERIF_OUT") or VERIF
+
 # ----------------------------------------------------------------------------- verdicts and evidence
 
 def load_known_findings():
@@ -284,7 +287,7 @@ class Verdict(object):
         for kid, (k, cnt) in sorted(self.known_hits.items()):
             print("KNOWN-FINDING: property=%s %s [%s; seen %d time(s) in this run]" % (self.prop, k["what"], kid, cnt))
         # known findings that the run was expected to exhibit but did not are only noted in the evidence file
-        os.makedirs(os.path.join(VERIF, "replays"), exist_ok=True)
+        os.makedirs(os.path.join(OUT, "replays"), exist_ok=True)
         seen = set()
         for v in self.violations:
             key = (v.get("clause"), v.get("site"), v.get("cls"))
@@ -293,7 +296,7 @@ class Verdict(object):
             seen.add(key)
             if self.nreplay < 25:
                 self.nreplay += 1
-                path = os.path.join(VERIF, "replays", "%s_%s_%d.json" % (self.prop, self.tier, self.nreplay))
+                path = os.path.join(OUT, "replays", "%s_%s_%d.json" % (self.prop, self.tier, self.nreplay))
                 with open(path, "w") as f:
                     json.dump(dict(property=self.prop, violation=v), f, indent=1, default=str)
                 print("VIOLATION property=%s replay=%s  clause=%s %s" % (self.prop, path, v.get("clause"), str(v.get("what", ""))[:300]))
@@ -304,13 +307,13 @@ class Verdict(object):
 
 
 def write_evidence(prop, tier, level, coverage, assumptions, wall, nviol):
-    os.makedirs(os.path.join(VERIF, "evidence"), exist_ok=True)
+    os.makedirs(os.path.join(OUT, "evidence"), exist_ok=True)
     ev = dict(property_id=prop, tier=tier, seed=seed(), level=level, coverage=coverage,
               assumptions=list(assumptions), wall_s=round(float(wall), 2), violations=int(nviol))
-    tmp = os.path.join(VERIF, "evidence", prop + ".json.tmp")
+    tmp = os.path.join(OUT, "evidence", prop + ".json.tmp")
     with open(tmp, "w") as f:
         json.dump(ev, f, indent=1, default=str)
-    os.replace(tmp, os.path.join(VERIF, "evidence", prop + ".json"))
+    os.replace(tmp, os.path.join(OUT, "evidence", prop + ".json"))
 
 
 def pmap(fn_name, module, items, nproc=None, chunk=None):
